@@ -237,4 +237,88 @@ example : encodable (summaryTerm (summarize [.death 1 2 3, .death 2 2 4, .achiev
   summary_encodable _
 
 
+/-! ### exactly one JSON document -/
+
+theorem toks_ne_nil (t : PyTerm) : toks t ≠ [] := by
+  cases t <;> simp [toks]
+
+theorem toksList_ne_nil (x : PyTerm) (xs : List PyTerm) : toksList (x :: xs) ≠ [] := by
+  intro h
+  simp only [toksList] at h
+  have := toks_ne_nil x
+  cases hx : toks x with
+  | nil => exact this hx
+  | cons a b => simp [hx] at h
+
+theorem toksKVs_ne_nil (kv : PyTerm × PyTerm) (rest : List (PyTerm × PyTerm)) : toksKVs (kv :: rest) ≠ [] := by
+  obtain ⟨k, v⟩ := kv
+  simp [toksKVs]
+
+theorem toksFields_ne_nil (f : String × PyTerm) (rest : List (String × PyTerm)) : toksFields (f :: rest) ≠ [] := by
+  obtain ⟨n, v⟩ := f
+  simp [toksFields]
+
+/-- **What the encoder writes is exactly one JSON value.** For every term the shipped encoder
+accepts — any nesting of lists, tuples, dicts with accepted keys, objects (through `__dict__`),
+bytes and other objects (through `str`) — the token sequence of the output is derivable as a
+single value of the JSON grammar: brackets balanced, members `"key": value`, commas exactly
+between neighbours, nothing before or after. -/
+theorem dumps_is_one_document : ∀ t : PyTerm, encodable t = true → JValue (toks t) := by
+  intro t
+  exact PyTerm.rec (motive_1 := fun t => encodable t = true → JValue (toks t))
+    (motive_2 := fun xs => encodableList xs = true → JElems (toksList xs))
+    (motive_3 := fun kvs => encodableKVs kvs = true → JMembers (toksKVs kvs))
+    (motive_4 := fun fs => encodableFields fs = true → JMembers (toksFields fs))
+    (motive_5 := fun kv => encodable kv.2 = true → JValue (toks kv.2))
+    (motive_6 := fun f => encodable f.2 = true → JValue (toks f.2))
+    (by intro _; exact .atom _) (by intro b _; exact .atom _) (by intro i _; exact .atom _) (by intro r _; exact .atom _)
+    (by intro s _; exact .str _) (by intro h _; exact .str _)
+    (by intro xs ih h; exact .arr _ (ih (by simpa [encodable] using h)))
+    (by intro xs ih h; exact .arr _ (ih (by simpa [encodable] using h)))
+    (by intro kvs ih h; exact .obj _ (ih (by simpa [encodable] using h)))
+    (by intro _ fs ih h; exact .obj _ (ih (by simpa [encodable] using h)))
+    (by intro r _; exact .str _)
+    (by intro _; exact .nil)
+    (by
+      intro x xs ih1 ih2 h
+      simp only [encodableList, Bool.and_eq_true] at h
+      cases xs with
+      | nil => simpa [toksList] using JElems.one _ (ih1 h.1)
+      | cons y ys =>
+        have := JElems.cons _ _ (ih1 h.1) (ih2 h.2) (toksList_ne_nil y ys)
+        simpa [toksList] using this)
+    (by intro _; exact .nil)
+    (by
+      intro kv rest ih1 ih2 h
+      obtain ⟨k, v⟩ := kv
+      simp only [encodableKVs, Bool.and_eq_true] at h
+      cases rest with
+      | nil => simpa [toksKVs] using JMembers.one (keyText k) _ (ih1 h.1.2)
+      | cons y ys =>
+        have := JMembers.cons (keyText k) _ _ (ih1 h.1.2) (ih2 h.2) (toksKVs_ne_nil y ys)
+        simpa [toksKVs] using this)
+    (by intro _; exact .nil)
+    (by
+      intro f rest ih1 ih2 h
+      obtain ⟨n, v⟩ := f
+      simp only [encodableFields, Bool.and_eq_true] at h
+      cases rest with
+      | nil => simpa [toksFields] using JMembers.one n _ (ih1 h.1)
+      | cons y ys =>
+        have := JMembers.cons n _ _ (ih1 h.1) (ih2 h.2) (toksFields_ne_nil y ys)
+        simpa [toksFields] using this)
+    (by intro k v _ ih h; exact ih h)
+    (by intro n v ih h; exact ih h)
+    t
+
+/-- the CLI's standard output for a parse that yields a summary: nothing from the play
+(`play_stdout_empty`) and then the one document `print(json.dumps(...))` writes -/
+theorem summary_is_one_document (es : List Event) : JValue (toks (summaryTerm (summarize es))) :=
+  dumps_is_one_document _ (summary_encodable es)
+
+
+/-- a nested instance: `{"a": [1, {"b": null}], "7": "x"}` -/
+example : JValue (toks (.dict [(.str "a", .list [.int 1, .dict [(.str "b", .none)]]), (.int 7, .str "x")])) :=
+  dumps_is_one_document _ (by decide +kernel)
+
 end ReplayModel.C14
